@@ -977,7 +977,16 @@ class Engine:
                     last = ex
                     continue
                 if bm is None:
-                    raise Inconclusive("integer and bit-vector encodings disagree on a satisfiable case")
+                    # the integer model may fix auxiliary variables (fresh quotients, enumerated members) to values the
+                    # exact encoding determines otherwise: ask the exact encoding without the pins before giving up
+                    try:
+                        bm = self.bv_solve(*bvc)
+                    except Inconclusive as ex:
+                        last = ex
+                        continue
+                    self.stats["pin_retries"] = self.stats.get("pin_retries", 0) + 1
+                    if bm is None:
+                        raise Inconclusive("integer and bit-vector encodings disagree on a satisfiable case")
                 return bm
             last = Inconclusive("integer deciding query returned unknown")
         raise last or Inconclusive("no encoding could decide the case")
